@@ -1,7 +1,8 @@
 --------------------------- MODULE MC_Fix ---------------------------
 (* Design check + enumerator for C04 (direction 1): a reference of NB <= 5 bins in <= 2 classes; every subset  *)
 (* of bad bins (the filter each bin sits on rotates with KShifts: a bad bin is one grid step beyond its         *)
-(* threshold, a good bin exactly on it or one step inside), every subset of {gc, edge, rmask}, class patterns,  *)
+(* threshold, a good bin exactly on it -- or, when the number of bad bins is odd, one step inside), every       *)
+(* subset of {gc, edge, rmask}, class patterns,                                                                 *)
 (* reference column sets, and the scenarios: sample over the same bins / a subset / no antitargets / a bin      *)
 (* missing from the reference / duplicated coordinates in target, antitarget, reference / rows in other orders. *)
 (* One step computes the A-layer result; DesignOK says the A-layer satisfies every clause of the P-layer.       *)
@@ -20,9 +21,8 @@ PatOf(p, b) == CASE p = 1 -> "T"
                  [] p = 3 -> IF b \in {1, 2, 5} THEN "T" ELSE "A"
                  [] OTHER -> IF b \in {2, 3} THEN "T" ELSE "A"
 
-RefRow(b, isbad, ks) ==
+RefRow(b, isbad, ks, odd) ==      \* odd: a good bin sits exactly on its threshold (else one grid step inside)
     LET k == KindOf(b, ks)
-        odd == b % 2 = 1
         l == CASE k = "lo" -> IF isbad THEN MinRefLog2 - 64 ELSE IF odd THEN MinRefLog2 ELSE MinRefLog2 + 64
                [] k = "hi" -> IF isbad THEN 64 - MinRefLog2 ELSE IF odd THEN 0 - MinRefLog2 ELSE 0 - MinRefLog2 - 64
                [] OTHER -> 64 * (2 * b - 5)
@@ -41,7 +41,7 @@ Extra == <<2, 5000, 5100, 64, 0>>                                   \* a sample 
 
 Rev(s) == [k \in 1..Len(s) |-> s[Len(s) + 1 - k]]
 Input(bad, corr, ks, p, sc, cols) ==
-    LET ref0 == [b \in 1..NB |-> RefRow(b, b \in bad, ks)]
+    LET ref0 == [b \in 1..NB |-> RefRow(b, b \in bad, ks, Cardinality(bad) % 2 = 0)]
         tb == SelectSeq([b \in 1..NB |-> b], LAMBDA b : PatOf(p, b) = "T")
         ab == SelectSeq([b \in 1..NB |-> b], LAMBDA b : PatOf(p, b) = "A")
         tgt0 == [k \in 1..Len(tb) |-> SampleRow(tb[k], ks)]
@@ -67,7 +67,7 @@ Input(bad, corr, ks, p, sc, cols) ==
 
 VARIABLES inp, ph, aout, aerr
 vars == <<inp, ph, aout, aerr>>
-NoVar == [kind |-> "none", k |-> 0, tperm |-> <<>>, aperm |-> <<>>, err |-> "", out |-> <<>>]
+NoVar == [kind |-> "none", k |-> 0, k16 |-> 0, tperm |-> <<>>, aperm |-> <<>>, err |-> "", out |-> <<>>]
 (* the A-layer result as an observed record: values on the grid, weight 1 *)
 OutRows(a) == [j \in 1..Len(a) |-> <<a[j][1], a[j][2], a[j][3], a[j][4], 1, 0, 0, a[j][5], a[j][6], 0, 1000000, 0>>]
 Rec == inp @@ [err |-> IF aerr = "" THEN "" ELSE "refused", errkind |-> aerr, out |-> OutRows(aout), var |-> NoVar]
